@@ -1,9 +1,12 @@
 package known
 
 import (
+	"encoding/json"
 	"strings"
 
 	"verif/harness/gen"
+	"verif/harness/jsongen"
+	"verif/harness/ref"
 	"verif/harness/rt"
 )
 
@@ -11,6 +14,7 @@ import (
 const (
 	DecNameConflict = "KF-DEC-field-name-conflict"
 	DecStringTag    = "KF-DEC-string-tag-on-unsupported-kind"
+	DecCaseFoldKey  = "KF-DEC-case-insensitive-key-match"
 )
 
 // dedupDec renames fields so that no two fields of a struct (including its embedded structs) share a
@@ -75,6 +79,76 @@ func RepairDecSpec(s *gen.TypeSpec) {
 			}
 		})
 	}
+}
+
+// DecValCfg adapts generation of pre-populated destinations to active findings.
+func DecValCfg(c gen.ValCfg) gen.ValCfg {
+	return c
+}
+
+// DecTypedCfg adapts type-directed document generation to active findings.
+func DecTypedCfg(c jsongen.TypedCfg) jsongen.TypedCfg {
+	return c
+}
+
+// DecExpect returns the id of an active expect-mode finding whose selector (a predicate over the
+// destination type, the document, the entry point and whether the destination was pre-populated)
+// matches the case, or "".
+func DecExpect(spec *gen.TypeSpec, doc []byte, entry string, prepop bool) string {
+	if rt.Active(DecCaseFoldKey) && hasCaseVariantKey(spec, doc) {
+		return DecCaseFoldKey
+	}
+	return ""
+}
+
+var leafFieldNames = map[string][]string{
+	"NStruct": {"a", "b"}, "EmbA": {"A", "x"}, "EmbB": {"A", "Y"}, "EmbC": {"x", "Ab"},
+	"ValMJ": {"A", "S"}, "PtrMJ": {"A", "S"}, "ValMT": {"A", "S"}, "PtrMT": {"A", "S"},
+}
+
+// hasCaseVariantKey: the document contains an object key that differs from a field's JSON name of
+// the destination type only by letter case (selector of DecCaseFoldKey).
+func hasCaseVariantKey(spec *gen.TypeSpec, doc []byte) bool {
+	names := map[string]map[string]bool{} // lower -> exact spellings
+	add := func(n string) {
+		l := strings.ToLower(n)
+		if names[l] == nil {
+			names[l] = map[string]bool{}
+		}
+		names[l][n] = true
+	}
+	spec.Walk(func(n *gen.TypeSpec) {
+		for i := range n.Fields {
+			if n.Fields[i].Unexp {
+				continue
+			}
+			if name, _ := jsonName(&n.Fields[i]); name != "" {
+				add(name)
+			}
+		}
+		if strings.HasPrefix(n.K, "leaf:") {
+			for _, f := range leafFieldNames[n.K[5:]] {
+				add(f)
+			}
+		}
+	})
+	toks, err := ref.Tokens(doc)
+	if err != nil {
+		return false
+	}
+	for _, t := range toks {
+		if !t.Key {
+			continue
+		}
+		var k string
+		if json.Unmarshal(doc[t.Start:t.End], &k) != nil {
+			continue
+		}
+		if ex := names[strings.ToLower(k)]; ex != nil && (!ex[k] || len(ex) > 1) {
+			return true // some field name (in some struct of the type) equals the key only up to case
+		}
+	}
+	return false
 }
 
 // DecWitnesses: id -> func() (stillFails bool, detail string); filled by package dec.
